@@ -15,6 +15,10 @@ def eval_prog(ld, st):
     exps, why = discovery.expected(ld)
     status, sig = discovery.retrieve(ld)
     st.inc('transitions')
+    if why.startswith('algebra-raises-'):
+        st.violation('non-valueerror-escapes', case,
+                     {'program': discovery.show_prog(ld), 'operation': 'forwards / merge for the written call',
+                      'exception': why[len('algebra-raises-'):]}, {'exception': why[len('algebra-raises-'):]})
     if status != 'ok':
         st.violation('retrieval-lets-algebra-failure-escape', case,
                      {'program': discovery.show_prog(ld), 'error': '%s: %s' % (type(sig).__name__, sig),
